@@ -142,7 +142,7 @@ pub fn stub_mul_inv(_c: &Idea, a: u16) -> u16 {
     return r::mul_inv(a);
 }
 
-//@ harness name=idea_roundtrip_ed prop=C01 tier=quick bits=192 stub=1 est=180 need=7 desc="W: decrypt_block(encrypt_block(b)) == b for Idea::new(key), all 2^128 keys, all 2^64 blocks; real key schedule, sub-key inversion placement, add, add_inv and data path; mul / mul_inv uninterpreted up to the cancellation laws that follow from idea_leaf_mul + idea_inv_r0..r15"
+//@ harness name=idea_roundtrip_ed prop=C01 tier=quick bits=192 stub=1 est=250 need=7 desc="W: decrypt_block(encrypt_block(b)) == b for Idea::new(key), all 2^128 keys, all 2^64 blocks; real key schedule, sub-key inversion placement, add, add_inv and data path; mul / mul_inv uninterpreted up to the cancellation laws that follow from idea_leaf_mul + idea_inv_r0..r15"
 verif_harness! {
     name: idea_roundtrip_ed,
     bytes: 24,
